@@ -63,7 +63,7 @@ namespace DFS
       static const char labels[] = "ABCDEFGH";
       char label;
       unsigned offset = 8;
-      for (int i = 0; (label=labels[i]) != '\0'; ++i)
+      for (int i = 0; (label=labels[i]) != '\0'; ++i, offset += 2u)
 	{
 	  const unsigned int track = sector16[offset];
 	  if (track == 0)
@@ -82,7 +82,6 @@ namespace DFS
 	    }
 	  auto start = DFS::safe_unsigned_multiply(track, sectors_per_track_);
 	  locations_.emplace_back(i*2, start, start, label);
-	  offset += 2u;
 	}
       std::sort(locations_.begin(), locations_.end());
       unsigned long next_sector = total_disc_sectors_;
